@@ -292,6 +292,17 @@ func c17ElementBlock(c *Ctx) {
 					d3 := tvMap("str", [][2]any{{hx("xs"), arr}, {hx("h"), hv}})
 					c.Do(Case{Q: "$.xs.Index($.h)", D: d3, XK: "logical", X: "ERR", Cls: "Index-huge-exact-path-argument/" + cls, InDomain: true})
 				}
+				// indexes that are NOT whole numbers but closer to an in-range one than a float64 can tell (given exactly: a decimal or a
+				// numeral string in the data, or a numeral string as the argument)
+				for ai, a := range []string{fmt.Sprintf("%d.00000000000000000001", i), fmt.Sprintf("%d.99999999999999999999", i), "-1e-400", "-0.00000000000000000000000001", fmt.Sprintf("%d.5e-30", i+1)} {
+					av := tvStr(a)
+					if ai%2 == 0 {
+						av = tvDec(decimal.RequireFromString(a))
+					}
+					d4 := tvMap("str", [][2]any{{hx("xs"), arr}, {hx("h"), av}})
+					c.Do(Case{Q: "$.xs.Index($.h)", D: d4, XK: "logical", X: "ERR", Cls: "Index-almost-whole-path-argument/" + cls, InDomain: true})
+					c.Do(Case{Q: "$.xs.Index(\"" + a + "\")", D: d4, XK: "logical", X: "ERR", Cls: "Index-almost-whole-numeral-string/" + cls, InDomain: true})
+				}
 			}
 		}
 	}
